@@ -319,3 +319,15 @@ Definition be_run_enc (l : list N) : list N :=
       end
   | _ => []
   end.
+
+(* C16 at the macro level (LOG_*, LOGV_*, LOGJ_*, *_LIMIT, *_DYNAMIC): on a logger of level [lg] a statement of
+   level [v] evaluates its arguments and is enqueued iff lg <= v - the same test as passes_logger.
+   case: lvl <logger level> {<macro family> <level>}*  ->  per statement: <evaluated> <written> *)
+Definition level_passes (lg v : N) : bool := lg <=? v.
+Fixpoint lvl_pairs (fuel : nat) (l : list N) : list (N * N) :=
+  match fuel with O => [] | S f => match l with fam :: v :: r => (fam, v) :: lvl_pairs f r | _ => [] end end.
+Definition lvl_run_enc (l : list N) : list N :=
+  match l with
+  | lg :: r => flat_map (fun fv => let b := if level_passes lg (snd fv) then 1 else 0 in [b; b]) (lvl_pairs (length r) r)
+  | [] => []
+  end.
